@@ -94,9 +94,30 @@ static long l_live(void) { long k = 0; for (int i = 0; i < MAXLIVE; i++) if (L.l
 /* ---- backend */
 static struct { int ws; long long verdict; uint32_t vaddr; const long long *data; int nd;
                 int ncalls; struct { int kind; uint32_t addr; size_t n; unsigned char pl[4096]; size_t npl; } c[4]; } B;
+/* A memory backend may itself talk the protocol on another instance (say, forward or log the access): every second backend call
+ * first sends a request and a response through a second instance into a sink that throws everything away. */
+static ssize_t void_sink(void *d, const void *b, size_t n) { (void)d; (void)b; return (ssize_t)n; }
+static unsigned nest_calls;
+static void backend_nested(void)
+{
+    if ((nest_calls++ % 2) != 0) return;
+    static RegP aux;
+    Arr none3 = { NULL, 0, 0 };
+    Source s3 = OCTET_SOURCE_INIT(src_octet, &none3);
+    Sink k3 = CHUNK_SINK_INIT(void_sink, NULL);
+    regp_init(&aux);
+    regp_use_channel(&aux, (nest_calls & 2) ? RP_EP_SERIAL : RP_EP_TCP, s3, k3);
+    static const uint16_t w[3] = { 0xC0DB, 0xDCDD, 7 };
+    RPFrame f; memset(&f, 0, sizeof f);
+    f.header.type = RP_FRAME_READ_REQUEST; f.header.sequence = 0xC0DB; f.header.address = 0xDBC0DCDD;
+    (void)regp_req_write16(&aux, 0xC0DBDCDDu, 3, w);
+    (void)regp_resp_erange(&aux, &f, 0xDDDCDBC0u);
+    (void)regp_resp_ack(&aux, &f, w, 3);
+}
 static RPBlockAccess b_read(uint32_t a, size_t n, void *buf)
 {
     RPBlockAccess r = { (RPResponse)B.verdict, B.vaddr };
+    backend_nested();
     if (B.ncalls < 4) { B.c[B.ncalls].kind = 0; B.c[B.ncalls].addr = a; B.c[B.ncalls].n = n; B.c[B.ncalls].npl = 0; }
     B.ncalls++;
     /* the backend fills the whole block it was asked for (ASan watches the frame block) */
@@ -107,6 +128,7 @@ static RPBlockAccess b_read(uint32_t a, size_t n, void *buf)
 static RPBlockAccess b_write(uint32_t a, size_t n, const void *buf)
 {
     RPBlockAccess r = { (RPResponse)B.verdict, B.vaddr };
+    backend_nested();
     if (B.ncalls < 4) {
         B.c[B.ncalls].kind = 1; B.c[B.ncalls].addr = a; B.c[B.ncalls].n = n;
         size_t k = n * (size_t)B.ws; if (k > sizeof B.c[0].pl) k = sizeof B.c[0].pl;
